@@ -188,6 +188,14 @@ type thread struct {
 }
 
 func exec(c px.Context, op string, args []sx.Sexp) (res core.Result) {
+	if op == "structrace" {
+		return execStructRace(args)
+	}
+	if op == "cacherace" && len(args) == 0 {
+		// answered by the model side from the regenerated table of lazily initialised fields: `none`, or the site that
+		// publishes an object before it is complete
+		return core.Result{Out: "none", Pred: "ok"}
+	}
 	if op == "lockrace" && len(args) == 0 {
 		// answered by the model side from the regenerated lock-set table: `none`, or the racing pair of access sites
 		return core.Result{Out: "none", Pred: "ok"}
@@ -755,6 +763,10 @@ func progSlots(p []gstep) int {
 
 func gen(g *core.G) {
 	g.Emit("lockrace")
+	g.Emit("cacherace")
+	// free-running: the first use of the member map of a big shared Struct type
+	g.Emit("structrace 20000 3")
+	g.Emit("structrace 5000 5")
 	a := nm("type", "a", "r")
 	A := nm("type", "A", "r")
 	// 1. exhaustive: two threads, programs of <= 2 steps over a two-level chain and one name, ALL schedules
